@@ -37,6 +37,29 @@ def run_native(pid: str, desc: Dict, repo: str = "/repo", timeout: int = 300) ->
         shutil.rmtree(d, ignore_errors=True)
 
 
+def run_e2e(pid: str, n_random: int, seed: int, repo: str = "/repo", timeout: int = 1800, scenario: Optional[Dict] = None) -> Dict:
+    """Bounded native stand-in (harness/e2e.py) in a fresh interpreter importing the rp2 of `repo`."""
+    d = tempfile.mkdtemp(prefix="rp2e2e_")
+    try:
+        env = dict(os.environ)
+        env["PYTHONPATH"] = os.path.join(os.path.abspath(repo), "src") + os.pathsep + VERIF
+        cmd = [sys.executable, "-m", "harness.e2e_main", pid, str(n_random), str(seed)]
+        if scenario is not None:
+            sp = os.path.join(d, "scenario.json")
+            with open(sp, "w") as f:
+                json.dump(scenario, f)
+            cmd += ["--scenario", sp]
+        p = subprocess.run(cmd, capture_output=True, text=True, cwd=d, env=env, timeout=timeout)
+        lines = [l for l in p.stdout.splitlines() if l.startswith("E2E-RESULT ")]
+        if not lines:
+            return {"evaluations": 0, "failures": [], "error": (p.stderr or p.stdout)[-1500:]}
+        return json.loads(lines[-1][len("E2E-RESULT "):])
+    except subprocess.TimeoutExpired:
+        return {"evaluations": 0, "failures": [], "error": "timed out"}
+    finally:
+        shutil.rmtree(d, ignore_errors=True)
+
+
 def main(path: str) -> int:
     with open(path) as f:
         info = json.load(f)
